@@ -39,6 +39,26 @@ def main():
         if os.path.exists(os.path.join(demo_dir, "src", "main.rs")):
             shutil.copy(os.path.join(demo_dir, "src", "main.rs"), os.path.join(out, "demo", "src", "main.rs"))
     confirm = {}
+    first_round = None
+    if skip:
+        # keep what an earlier full run established (confirmation in the agent's worktree; which checks
+        # reported the change *before* any rule was strengthened because of it)
+        log = "/var/tmp/seedlogs/%s-%s.log" % (pid, n)
+        try:
+            t = open(log).read()
+            d0 = json.loads(t[t.index("{"):])
+            confirm = d0.get("confirm", {})
+            first_round = d0.get("detected_by")
+        except Exception:
+            pass
+        try:
+            old = json.load(open(os.path.join(out, "meta.json")))
+            if old.get("confirmed_by_me"):
+                confirm = old["confirmed_by_me"]
+            if old.get("first_round_checks_that_reported_it") is not None:
+                first_round = old["first_round_checks_that_reported_it"]
+        except Exception:
+            pass
     if not skip:
         sh("git checkout -- . ", cwd=wt)
         rc, o = sh(["git", "apply", "--check", patch], cwd=wt)
@@ -75,7 +95,10 @@ def main():
                     results[p] = finds or ["exit %d" % rc]
     finally:
         shutil.rmtree(d, ignore_errors=True)
+    if first_round is None:
+        first_round = results
     meta = {"property": pid, "seed": n, "from_agent": meta_in, "confirmed_by_me": confirm,
+            "first_round_checks_that_reported_it": first_round,
             "checks_that_report_it": results,
             "detected": bool(results) and "error" not in results,
             "detected_by_own_property": pid in results}
